@@ -25,8 +25,14 @@ func RunCLI(w *World, r *Replica, args ...string) (out string, err error) {
 	if err != nil {
 		return "", err
 	}
-	oldOut, oldErr := os.Stdout, os.Stderr
+	oldOut, oldErr, oldIn := os.Stdout, os.Stderr, os.Stdin
 	os.Stdout, os.Stderr = f, f
+	// a command that prompts reads an empty standard input (as when started with </dev/null),
+	// whatever the simulator's own standard input is
+	if devnull, e := os.Open(os.DevNull); e == nil {
+		os.Stdin = devnull
+		defer func() { os.Stdin = oldIn; _ = devnull.Close() }()
+	}
 	pid := w.NewPid()
 	w.cur = r
 	defer func() {
